@@ -51,6 +51,7 @@ type SPet struct {
 	ID        uint `gorm:"primaryKey"`
 	SParentID uint
 	Name      string
+	Tags      []STag // (round 3) a level below the has-one: reachable through a JOINED relation (c08_tree.go)
 	DeletedAt gorm.DeletedAt
 }
 
